@@ -33,6 +33,8 @@ def obligations(tier):
                       funcs=("chartparse.track.parse_data_from_chart_lines",),
                       bounds="a run of 0..8 (12) lines of one kind, optionally an unparsable line, 0..2 lines of a second kind, then a line accepted by any "
                              "subset of the three kinds: first accepting kind in the caller's order wins, whatever came before"))
+    obs.append(Ob("C09.framing", "CH", "harness.h_chart", "framing", 300, funcs=("chartparse.chart.Chart._partition_lines_by_data_section",),
+                  bounds="3 sections x <=2 symbolic body lines of any length (blank lines included): this section's parser receives exactly its own body lines"))
     return obs
 
 
